@@ -951,7 +951,7 @@ func (r *funcRun) nextOp(st *State, x *ssa.Next) {
 	isNil := Ident(m, IntLit(0))
 	// ok => kk in dom, unvisited ; !ok => every key of dom visited
 	st.assume(Imp(ok, And(Not(isNil), mk(SBool, "(select (select %s %s) %s)", dom, m.S, kk.S), Not(mk(SBool, "(select (select %s %s) %s)", vis, it.S, kk.S)))))
-	st.assume(Imp(Not(ok), Or(isNil, mk(SBool, "(forall ((k %s)) (! (=> (select (select %s %s) k) (select (select %s %s) k)) :pattern ((select (select %s %s) k))))", string(mi.ksort), dom, m.S, vis, it.S, vis, it.S))))
+	st.assume(Imp(Not(ok), Or(isNil, mk(SBool, "(forall ((k %s)) (! (=> (select (select %s %s) k) (select (select %s %s) k)) :pattern ((select (select %s %s) k)) :pattern ((select (select %s %s) k))))", string(mi.ksort), dom, m.S, vis, it.S, vis, it.S, dom, m.S))))
 	st.setComp(name, sig, fmt.Sprintf("(ite %s (store %s %s (store (select %s %s) %s true)) %s)", ok.S, vis, it.S, vis, it.S, kk.S, vis))
 	val := r.v.mapValRead(st, nil, mi, m, kk)
 	r.assumeInv(st, val, mt.Elem())
